@@ -19,6 +19,7 @@ import (
 	"github.com/Trendyol/go-dcp/models"
 
 	"verif/harness/cbsim"
+	"verif/harness/drv"
 	"verif/harness/evlog"
 	"verif/harness/hx"
 )
@@ -89,6 +90,10 @@ type SessSpec struct {
 	RollbackAlso map[int]int    `json:"rollback_also,omitempty"` // vb -> a second request index that is answered ROLLBACK(R) as well
 	// HoldConsAtStart: the consumer blocks inside its very first delivery (until "releasecons"); installed before Start()
 	HoldConsAtStart bool `json:"hold_cons_at_start,omitempty"`
+	// FileSparse: the pre-written checkpoint file holds the PreStore entries only (written under a narrower assignment)
+	FileSparse bool `json:"file_sparse,omitempty"`
+	// NoteReqs: every stream request is also reported to the parent process at once (it survives a death of the child)
+	NoteReqs bool `json:"note_reqs,omitempty"`
 	// LingerMs: after the script (and the close) the session stays around that long before the log is taken
 	LingerMs int `json:"linger_ms,omitempty"`
 	// ReqFailFrom: ReqFail applies to the given request index and to every later request of that vBucket
@@ -194,6 +199,7 @@ type Trace struct {
 	CloseOK         bool
 	Notes           []string
 	FilePath        string
+	FileAtEnd       string // content of the checkpoint file when the session was over ("<absent>": no such file)
 	BarrierTimeouts int
 	Cfg             *config.Dcp
 	Checks          []*StoreCheck
@@ -465,7 +471,7 @@ func RunSession(spec *SessSpec) *Trace {
 		}
 	}
 	reqHoldCh := make(chan struct{})
-	if len(spec.Rollbacks) > 0 || len(spec.ReqFail) > 0 || len(spec.ReqHold) > 0 || len(spec.EndBehindReq) > 0 {
+	if len(spec.Rollbacks) > 0 || len(spec.ReqFail) > 0 || len(spec.ReqHold) > 0 || len(spec.EndBehindReq) > 0 || spec.NoteReqs {
 		var rmu sync.Mutex
 		nreq := map[int]int{}
 		rolledBack := map[int]bool{}
@@ -492,6 +498,9 @@ func RunSession(spec *SessSpec) *Trace {
 			rmu.Lock()
 			defer rmu.Unlock()
 			nreq[int(r.VB)]++
+			if spec.NoteReqs {
+				drv.NoteFlush("streamreq vb=%d n=%d", r.VB, nreq[int(r.VB)])
+			}
 			if eb, ok := spec.EndBehindReq[int(r.VB)]; ok && eb[0] == nreq[int(r.VB)] {
 				vbe, ste := r.VB, uint32(eb[1])
 				return &cbsim.Action{After: func() { env.Sim.EndStreams(vbe, ste) }}
@@ -582,12 +591,18 @@ func RunSession(spec *SessSpec) *Trace {
 		dir, _ := os.MkdirTemp("", "sess-")
 		defer os.RemoveAll(dir)
 		tr.FilePath = filepath.Join(dir, "ckpt.json")
+		tr.FileAtEnd = "<absent>"
+		defer func() {
+			if b, err := os.ReadFile(tr.FilePath); err == nil {
+				tr.FileAtEnd = string(b)
+			}
+		}()
 		cfg.Metadata.Type = "file"
 		cfg.Metadata.Config = map[string]string{"fileName": tr.FilePath}
 		if len(spec.PreStore) > 0 {
 			m := map[string]any{}
 			// the file back end always stores the whole assignment; a realistic file has every vBucket
-			for vb := 0; vb < spec.NumVB; vb++ {
+			for vb := 0; vb < spec.NumVB && !spec.FileSparse; vb++ {
 				if _, ok := spec.PreStore[vb]; !ok {
 					m[fmt.Sprint(vb)] = map[string]any{"checkpoint": map[string]any{"vbuuid": 0, "seqno": 0, "snapshot": map[string]any{"startSeqno": 0, "endSeqno": 0}}, "bucketUuid": env.Sim.UUID}
 				}
